@@ -906,6 +906,7 @@ class Crate:
         return out
 
     def closures_of(self, path):
+        """closures defined in `path`, including nested ones"""
         pre = path + "::{closure#"
         return [b for p, b in sorted(self.bodies.items()) if p.startswith(pre) and b.kind == "closure"]
 
